@@ -193,7 +193,7 @@ def gen_gamma_changes(ctx, N):
         elif rng.random() < 0.5:
             P["L_0"] = rng.choice([0.25, 1.0, 4.0])
         if rng.random() < 0.3: P["upd"] = True
-        if rng.random() < 0.15: P["recompute"] = True
+        if rng.random() < 0.3: P["recompute"] = True
         if rng.random() < 0.15: P["eager"] = True
         if rng.random() < 0.2: P["tau_min"] = rng.choice([0.25, 0.5])
         A, Dp = gen_accel(rng, direction)
@@ -251,9 +251,10 @@ def oracle(cs, o):
         bad.append(("PANOCDIR:struclbfgs-rejected", "lbfgs_rejected=%d although the update is forced" % o["lbfgs_rejected"]))
     return bad
 
-def near_tie(cs, o, rel=1e-13):
-    """decisions visible in the records that are within `rel` of a tie (PANOC.near_tie uses 1e-9, which classifies every converging run
-    as a QUB tie — ψ̂ − rhs = O(‖p‖²); the provider models follow the C++ operation order, so only last-bit ties can differ)"""
+def near_tie(cs, o, rel=2.0 ** -51):
+    """decisions visible in the records that are within `rel` (2 ulp) of a tie.  PANOC.near_tie uses 1e-9, which classifies every converging
+    run as a QUB tie (ψ̂ − rhs = O(‖p‖²) − margin, margin = 10 ε (1 + |ψ|)); the provider models follow the C++ operation order, runs agree
+    bit for bit, so only last-bit ties could differ"""
     V, D = sl.V, sl.D
     P = cs.P_
     tol = cs.tol if cs.tol > 0 else 1e-8
